@@ -134,6 +134,7 @@ func TestWorker(t *testing.T) {
 	outPath := os.Getenv("VERIF_OUT")
 	params := parseParams(os.Getenv("VERIF_PARAMS"))
 	seedBase := uint64(envInt("VERIF_SEED_BASE", 1))
+	params["_seed_base"] = strconv.FormatUint(seedBase, 10)
 	runs := int(envInt("VERIF_RUNS", 100))
 	budget := time.Duration(envInt("VERIF_BUDGET_S", 3600)) * time.Second
 	startWatchdog(time.Duration(envInt("VERIF_WATCHDOG_S", 120)) * time.Second)
